@@ -25,6 +25,6 @@ PROPERTY = {
     ],
     "trusted_base": ["Kani/CBMC soundness", "std::rt::thread_cleanup stub (ICE work-around)"],
     "assumptions": [],
-    "not_covered": ["pool-level ordering of USE vs. connection establishment/refill (schedules over tasks)", "statement text `USE name` construction in Connection::use_keyspace (async, needs a live router)", "names longer than the bound"],
+    "not_covered": ["pool-level ordering of USE vs. connection establishment/refill (schedules over tasks)", "statement text `USE name` construction in Connection::use_keyspace (async, needs a live router)", "(twins only) names longer than the twins' bounds - the Verus proof covers every length"],
     "explanation": "validation sentence: deductive proof (Verus); session/pool ordering sentences: not covered by any contract (schedules over tasks and sockets)",
 }
